@@ -40,6 +40,7 @@ type xferOpts struct {
 	trigSplitLF bool // the last byte of the trigger line (its line feed) arrives in a read of its own
 	srvCCFrame bool                     // the server's pane belongs to a tmux in control mode: its output reaches the next hop as %output lines, and what is typed towards it lands in tmux's command channel (recorded in ccTyped), not in its stdin
 	cols       int32
+	relDst     bool // an upload's destination is given relative to the working directory
 	uploadVia  int // 0 OneTimeUpload, 1 UploadFiles (drag queue + scripted shell), 2 typed paths
 	// no default download path: the file dialog opens (a stand-in dialog program on PATH decides what the user did)
 	noDefaultPath bool
@@ -518,7 +519,16 @@ func (x *xferWorld) prepareServer() {
 	}
 	args := append([]string{prog}, o.flags...)
 	if o.upload {
-		args = append(args, o.dstDir)
+		dstArg := o.dstDir
+		if o.relDst {
+			// the destination as the user would type it: relative to where the command is started
+			if cwd, err := os.Getwd(); err == nil {
+				if rel, err := filepath.Rel(cwd, o.dstDir); err == nil {
+					dstArg = rel
+				}
+			}
+		}
+		args = append(args, dstArg)
 	} else {
 		args = append(args, o.srcPaths...)
 	}
